@@ -251,3 +251,198 @@ Lemma isort_reqs_ok : sorter_ok a_start isort_reqs.
 Proof. exact (isort_sorter_ok areq a_start). Qed.
 Lemma isort_segs_ok : sorter_ok s_off isort_segs.
 Proof. exact (isort_sorter_ok seg s_off). Qed.
+
+(* ====================================================================== *)
+(* Part 2b. wait refines blocking execution                                 *)
+(* ====================================================================== *)
+From Pnc Require Import Proofs_NbWait.
+
+Lemma extract_mem : forall st n ids hs stat0, st_mem (ex_st (extract_reqs st n ids hs stat0)) = st_mem st.
+Proof.
+  intros st n ids hs stat0. unfold extract_reqs.
+  destruct (n <? 0) eqn:E0.
+  - destruct ((n =? NC_PUT_REQ_ALL) || (n =? NC_REQ_ALL)); destruct ((n =? NC_GET_REQ_ALL) || (n =? NC_REQ_ALL)); reflexivity.
+  - destruct ((Zlen (get_reqs st) =? 0) && (n =? Zlen (put_lead st))); [reflexivity|].
+    destruct ((Zlen (put_reqs st) =? 0) && (n =? Zlen (get_lead st))); [reflexivity|].
+    destruct ((n =? Zlen (put_lead st) + Zlen (get_lead st)) && negb hs); [reflexivity|].
+    destruct (ex_mark ids 0 hs (put_lead st) (get_lead st) stat0 0 0 0 0 NC_NOERR)
+      as [[[[[[[pl1 gl1] stat1] nwl] nwr] nrl] nrr] err].
+    destruct (negb (err =? NC_NOERR)); [reflexivity|].
+    destruct (ex_copy ids pl1 gl1 (put_reqs st) (get_reqs st)) as [[ids' pe] ge].
+    destruct (if nwr =? 0 then (pl1, put_reqs st) else coalesce_nonlead pl1 (put_reqs st) 0) as [pl2 pr2].
+    destruct (if nrr =? 0 then (gl1, get_reqs st) else coalesce_nonlead gl1 (get_reqs st) 0) as [gl2 gr2].
+    reflexivity.
+Qed.
+
+(* the file after an independent wait: ONE write built from the extracted put requests *)
+Lemma wait_one_file : forall sr ss st a file,
+  ex_err (extract_reqs st (wa_n a) (wa_ids a) (wa_has_stat a) (wa_stat0 a)) = NC_NOERR ->
+  snd (wait_one sr ss st a file) =
+  (if 0 <? Zlen (ex_put (extract_reqs st (wa_n a) (wa_ids a) (wa_has_stat a) (wa_stat0 a)))
+   then mpi_write file (st_mem st)
+          (aggregate sr ss (put_lead (ex_st (extract_reqs st (wa_n a) (wa_ids a) (wa_has_stat a) (wa_stat0 a))))
+                     (ex_put (extract_reqs st (wa_n a) (wa_ids a) (wa_has_stat a) (wa_stat0 a))))
+   else file).
+Proof.
+  intros sr ss st a file Herr. unfold wait_one. rewrite Herr.
+  replace (negb (NC_NOERR =? NC_NOERR)) with false by reflexivity.
+  unfold commit_io. rewrite extract_mem.
+  destruct (commit_post _ _ _) as [st3 ev]. reflexivity.
+Qed.
+
+Lemma fold_blocking_put : forall leads file mem,
+  fold_left (fun f l => blocking_put f mem l) leads file = write_pairs file mem (flat_map lead_pairs leads).
+Proof.
+  induction leads as [|l leads IH]; intros file mem; [reflexivity|].
+  cbn [fold_left flat_map]. rewrite write_pairs_app. rewrite IH. reflexivity.
+Qed.
+Lemma fold_blocking_get : forall leads file mem,
+  fold_left (fun m l => blocking_get file m l) leads mem = read_pairs file mem (flat_map lead_pairs leads).
+Proof.
+  induction leads as [|l leads IH]; intros file mem; [reflexivity|].
+  cbn [fold_left flat_map]. rewrite read_pairs_app. rewrite IH. reflexivity.
+Qed.
+
+Lemma disk_eq_trans : forall a b c, disk_eq a b -> disk_eq b c -> disk_eq a c.
+Proof. intros a b c H1 H2 x. rewrite H1. apply H2. Qed.
+Lemma disk_eq_refl : forall a, disk_eq a a.
+Proof. intros a x. reflexivity. Qed.
+
+Lemma Permutation_nil_pairs : forall (l : list (Z * Z)), Permutation [] l -> l = [].
+Proof. intros l H. apply Permutation_nil. exact H. Qed.
+
+(* MAIN (puts): for every state satisfying the queue invariant, every argument list (ALL forms, the
+   shortcuts, any subset in any order), every qsort: if no file byte is written twice by the requests the
+   wait completes, the file afterwards is the file after the corresponding blocking puts, issued in queue order *)
+Theorem wait_refines_blocking_put : forall sr ss st a file,
+  sorter_ok a_start sr -> sorter_ok s_off ss -> nb_inv st ->
+  ex_err (extract_reqs st (wa_n a) (wa_ids a) (wa_has_stat a) (wa_stat0 a)) = NC_NOERR ->
+  NoDup (map fst (flat_map lead_pairs
+          (flagged (put_lead (ex_st (extract_reqs st (wa_n a) (wa_ids a) (wa_has_stat a) (wa_stat0 a))))))) ->
+  disk_eq (snd (wait_one sr ss st a file))
+          (fold_left (fun f l => blocking_put f (st_mem st) l)
+                     (flagged (put_lead (ex_st (extract_reqs st (wa_n a) (wa_ids a) (wa_has_stat a) (wa_stat0 a)))))
+                     file).
+Proof.
+  intros sr ss st a file Hsr Hss Hinv Herr Hnd.
+  rewrite wait_one_file by exact Herr. rewrite fold_blocking_put.
+  destruct (wait_put_pairs st (wa_n a) (wa_ids a) (wa_has_stat a) (wa_stat0 a) Hinv Herr) as [Hwf Hperm].
+  set (ex := extract_reqs st (wa_n a) (wa_ids a) (wa_has_stat a) (wa_stat0 a)) in *.
+  assert (Hnd' : NoDup (map fst (flat_map areq_pairs (map (annotate (put_lead (ex_st ex))) (ex_put ex))))).
+  { eapply Permutation_NoDup; [|exact Hnd]. apply Permutation_map. apply Permutation_sym. exact Hperm. }
+  destruct (0 <? Zlen (ex_put ex)) eqn:Ez.
+  - eapply disk_eq_trans.
+    + apply commit_stream_correct_write; assumption.
+    + apply write_pairs_perm; assumption.
+  - assert (Hnil : ex_put ex = []).
+    { apply Proofs_Disk.Zlen_zero_nil. pose proof (Proofs_Disk.Zlen_nonneg (ex_put ex)). lia. }
+    rewrite Hnil in Hperm. cbn [map flat_map] in Hperm.
+    apply Permutation_nil_pairs in Hperm. rewrite Hperm. apply disk_eq_refl.
+Qed.
+
+(* ... and the order in which the blocking puts are issued does not matter *)
+Corollary wait_refines_blocking_put_any_order : forall sr ss st a file leads',
+  sorter_ok a_start sr -> sorter_ok s_off ss -> nb_inv st ->
+  ex_err (extract_reqs st (wa_n a) (wa_ids a) (wa_has_stat a) (wa_stat0 a)) = NC_NOERR ->
+  NoDup (map fst (flat_map lead_pairs
+          (flagged (put_lead (ex_st (extract_reqs st (wa_n a) (wa_ids a) (wa_has_stat a) (wa_stat0 a))))))) ->
+  Permutation leads' (flagged (put_lead (ex_st (extract_reqs st (wa_n a) (wa_ids a) (wa_has_stat a) (wa_stat0 a))))) ->
+  disk_eq (snd (wait_one sr ss st a file))
+          (fold_left (fun f l => blocking_put f (st_mem st) l) leads' file).
+Proof.
+  intros sr ss st a file leads' Hsr Hss Hinv Herr Hnd Hp.
+  eapply disk_eq_trans; [apply wait_refines_blocking_put; assumption|].
+  rewrite !fold_blocking_put. apply write_pairs_perm; [|exact Hnd].
+  apply Permutation_flat_map. apply Permutation_sym. exact Hp.
+Qed.
+
+(* the memory after an independent wait *)
+Lemma commit_post_mem : forall st nwl nrl, st_mem (fst (commit_post st nwl nrl)) = st_mem st.
+Proof.
+  intros st nwl nrl. unfold commit_post.
+  destruct (nwl >? 0).
+  - destruct (compact_leads (put_lead st) (put_reqs st) 0 0) as [pl pr].
+    destruct (nrl >? 0).
+    + destruct (compact_leads _ _ 0 0) as [gl gr]. reflexivity.
+    + reflexivity.
+  - destruct (nrl >? 0).
+    + destruct (compact_leads (get_lead st) (get_reqs st) 0 0) as [gl gr]. reflexivity.
+    + reflexivity.
+Qed.
+
+Lemma wait_one_unfold : forall sr ss st a file,
+  ex_err (extract_reqs st (wa_n a) (wa_ids a) (wa_has_stat a) (wa_stat0 a)) = NC_NOERR ->
+  wait_one sr ss st a file =
+  (let ex := extract_reqs st (wa_n a) (wa_ids a) (wa_has_stat a) (wa_stat0 a) in
+   let ci := commit_io sr ss (ex_st ex) (ex_put ex) (ex_get ex) (0 <? Zlen (ex_put ex)) (0 <? Zlen (ex_get ex))
+                       (newnumrecs_loop (ex_st ex) (ex_nwl ex)) file in
+   let cp := commit_post (fst ci) (ex_nwl ex) (ex_nrl ex) in
+   (mkwr (fst cp) NC_NOERR (ex_ids ex) (ex_stat ex) (snd cp), snd ci)).
+Proof.
+  intros sr ss st a file Herr. unfold wait_one. rewrite Herr.
+  replace (negb (NC_NOERR =? NC_NOERR)) with false by reflexivity.
+  cbv zeta.
+  destruct (commit_io sr ss _ _ _ _ _ _ file) as [st2 f'].
+  cbn [fst snd]. destruct (commit_post st2 _ _) as [st3 ev]. reflexivity.
+Qed.
+
+Lemma commit_io_file : forall sr ss st pe ge dw dr nn file,
+  snd (commit_io sr ss st pe ge dw dr nn file) =
+  if dw then mpi_write file (st_mem st) (aggregate sr ss (put_lead st) pe) else file.
+Proof. intros. unfold commit_io. reflexivity. Qed.
+
+Lemma commit_io_mem : forall sr ss st pe ge dw dr nn file,
+  st_mem (fst (commit_io sr ss st pe ge dw dr nn file)) =
+  if dr then mpi_read (snd (commit_io sr ss st pe ge dw dr nn file)) (st_mem st) (aggregate sr ss (get_lead st) ge)
+  else st_mem st.
+Proof.
+  intros. unfold commit_io. cbn [fst snd].
+  destruct dw, dr; cbn [andb]; try destruct (st_numrecs st <? nn); reflexivity.
+Qed.
+
+Lemma wait_one_mem : forall sr ss st a file,
+  ex_err (extract_reqs st (wa_n a) (wa_ids a) (wa_has_stat a) (wa_stat0 a)) = NC_NOERR ->
+  st_mem (wr_st (fst (wait_one sr ss st a file))) =
+  (if 0 <? Zlen (ex_get (extract_reqs st (wa_n a) (wa_ids a) (wa_has_stat a) (wa_stat0 a)))
+   then mpi_read (snd (wait_one sr ss st a file)) (st_mem st)
+          (aggregate sr ss (get_lead (ex_st (extract_reqs st (wa_n a) (wa_ids a) (wa_has_stat a) (wa_stat0 a))))
+                     (ex_get (extract_reqs st (wa_n a) (wa_ids a) (wa_has_stat a) (wa_stat0 a))))
+   else st_mem st).
+Proof.
+  intros sr ss st a file Herr. rewrite (wait_one_unfold sr ss st a file Herr). cbv zeta. cbn [fst snd wr_st].
+  rewrite commit_post_mem, commit_io_mem, extract_mem. reflexivity.
+Qed.
+
+(* PARTIAL (gets): when the requests completed together read no file byte twice (and their buffers are
+   distinct), every read buffer holds what the blocking reads deliver - reading the file AFTER the writes of
+   the same wait.  Without the first hypothesis the statement is false: wait_refines_blocking_get_refuted (F2). *)
+Theorem wait_refines_blocking_get_partial : forall sr ss st a file,
+  sorter_ok a_start sr -> sorter_ok s_off ss -> nb_inv st ->
+  ex_err (extract_reqs st (wa_n a) (wa_ids a) (wa_has_stat a) (wa_stat0 a)) = NC_NOERR ->
+  NoDup (map fst (flat_map lead_pairs
+          (flagged (get_lead (ex_st (extract_reqs st (wa_n a) (wa_ids a) (wa_has_stat a) (wa_stat0 a))))))) ->
+  NoDup (map snd (flat_map lead_pairs
+          (flagged (get_lead (ex_st (extract_reqs st (wa_n a) (wa_ids a) (wa_has_stat a) (wa_stat0 a))))))) ->
+  disk_eq (st_mem (wr_st (fst (wait_one sr ss st a file))))
+          (fold_left (fun m l => blocking_get (snd (wait_one sr ss st a file)) m l)
+                     (flagged (get_lead (ex_st (extract_reqs st (wa_n a) (wa_ids a) (wa_has_stat a) (wa_stat0 a)))))
+                     (st_mem st)).
+Proof.
+  intros sr ss st a file Hsr Hss Hinv Herr Hnd1 Hnd2.
+  rewrite wait_one_mem by exact Herr. rewrite fold_blocking_get.
+  destruct (wait_get_pairs st (wa_n a) (wa_ids a) (wa_has_stat a) (wa_stat0 a) Hinv Herr) as [Hwf Hperm].
+  set (ex := extract_reqs st (wa_n a) (wa_ids a) (wa_has_stat a) (wa_stat0 a)) in *.
+  set (file1 := snd (wait_one sr ss st a file)).
+  assert (Hf : NoDup (map fst (flat_map areq_pairs (map (annotate (get_lead (ex_st ex))) (ex_get ex))))).
+  { eapply Permutation_NoDup; [|exact Hnd1]. apply Permutation_map. apply Permutation_sym. exact Hperm. }
+  assert (Hs : NoDup (map snd (flat_map areq_pairs (map (annotate (get_lead (ex_st ex))) (ex_get ex))))).
+  { eapply Permutation_NoDup; [|exact Hnd2]. apply Permutation_map. apply Permutation_sym. exact Hperm. }
+  destruct (0 <? Zlen (ex_get ex)) eqn:Ez.
+  - eapply disk_eq_trans.
+    + apply commit_stream_correct_read_partial; assumption.
+    + apply read_pairs_perm; assumption.
+  - assert (Hnil : ex_get ex = []).
+    { apply Proofs_Disk.Zlen_zero_nil. pose proof (Proofs_Disk.Zlen_nonneg (ex_get ex)). lia. }
+    rewrite Hnil in Hperm. cbn [map flat_map] in Hperm.
+    apply Permutation_nil_pairs in Hperm. rewrite Hperm. apply disk_eq_refl.
+Qed.
